@@ -181,11 +181,19 @@ def w_program(ctx, rng, i):
     maxdepth_read = 0
     for step in range(nops):
         a, am, _ = pool[rng.integers(0, len(pool))]
-        op = ["map", "mapmany", "slice", "fancy", "repeat", "addlazy", "addlist", "copy", "raddchain", "mapbuiltin"][rng.integers(0, 10)]
+        op = ["map", "mapmany", "slice", "fancy", "repeat", "addlazy", "addlist", "copy", "raddchain", "mapbuiltin", "plain_plus_lazy"][rng.integers(0, 11)]
         n0 = len(LOG)
         if op == "map":
             f = Fn()
             r, rm = a.map(f), [("F", f.id, e) for e in am]
+        elif op == "plain_plus_lazy":
+            # an ordinary sequence on the left: not supported by every version (TypeError is fine) - if it is, the order is the list's
+            vals = [int(v) for v in rng.integers(0, 100, int(rng.integers(1, 4)))]
+            try:
+                r, rm = (list(vals) if rng.random() < 0.5 else tuple(vals)) + a, [("V", v) for v in vals] + am
+            except TypeError:
+                ops.append("plain_plus_lazy_unsupported")
+                continue
         elif op == "mapbuiltin":
             # an ordinary callable that happens to be a class (a converter): list.map would be [str(x) for x in xs]
             nm = list(BUILTINS)[rng.integers(0, len(BUILTINS))]
@@ -273,6 +281,15 @@ def w_program(ctx, rng, i):
                     ctx.fail("index_past_end_evaluated_something", cls="LazyList")
     # quiescent point: full evaluation of every list in the pool, by iteration, against the model
     for (p, pm, pid) in pool:
+        if len(pm) and len(pm) <= 6 and rng.random() < 0.3:
+            # several iterations over one list at the same time are independent of one another (as for any list)
+            exp_v = [m_value(e) for e in pm]
+            pairs = list(zip(p, p))
+            nested = [(a_, b_) for a_ in p for b_ in p]
+            it1, it2 = iter(p), iter(p)
+            first = next(it1); list(it2); rest = list(it1)
+            if pairs != list(zip(exp_v, exp_v)) or nested != [(a_, b_) for a_ in exp_v for b_ in exp_v] or [first] + rest != exp_v:
+                ctx.fail("iteration_differs_from_list_model", cls="LazyList", mech="overlapping_iterations")
         n0 = len(LOG)
         vals = list(p) if rng.random() < 0.7 else [p[k] for k in range(len(p))]
         logged = LOG[n0:]
